@@ -292,7 +292,7 @@ def play(args, d):
     return tools.run_tool('rzxplay', ['--no-screen', '--quiet'] + args)
 
 
-def run_case(machine, fmt, compress, repeat, nframes, letter, im1, cut=None, conv=(0, 0), flags=0, light=False):
+def run_case(machine, fmt, compress, repeat, nframes, letter, im1, cut=None, conv=(0, 0), flags=0, light=False, split=None):
     """Returns (list of problems, executions)."""
     d = tools.workdir()
     prog = build_program(letter, machine, im1)
@@ -301,7 +301,7 @@ def run_case(machine, fmt, compress, repeat, nframes, letter, im1, cut=None, con
     init = write_initial_snapshot(machine, fmt, prog, d)
     rzx = os.path.join(d, 'rec.rzx')
     with open(rzx, 'wb') as f:
-        f.write(rzxfmt.build(tools.read_file(init), fmt, frames, compress, repeat))
+        f.write(rzxfmt.build(tools.read_file(init), fmt, frames, compress, repeat, split=split))
     problems = []
     n = 0
     finals = {}
@@ -357,9 +357,10 @@ def run_case(machine, fmt, compress, repeat, nframes, letter, im1, cut=None, con
     if r.rc:
         problems.append('rzxinfo failed: {}'.format(r.exc))
     else:
-        m = re.search(r'Number of frames: (\d+)', r.out)
-        if not m or int(m.group(1)) != nframes:
-            problems.append('rzxinfo reports {} frames, recorded {}'.format(m.group(1) if m else None, nframes))
+        per_block = [int(x) for x in re.findall(r'Number of frames: (\d+)', r.out)]
+        want_blocks = [split, nframes - split] if split else [nframes]
+        if per_block != want_blocks:
+            problems.append('rzxinfo reports {} frames per input recording block, recorded {}'.format(per_block, want_blocks))
         fcs = [int(x) for x in re.findall(r'Fetch counter: (\d+)', r.out)]
         if fcs != [f[0] for f in frames]:
             problems.append('rzxinfo fetch counters {} != recorded {}'.format(fcs, [f[0] for f in frames]))
@@ -381,10 +382,13 @@ def run_case(machine, fmt, compress, repeat, nframes, letter, im1, cut=None, con
 def cases(tier):
     L = [n for n, _ in letters()]
     quick = tier == 'quick'
-    default = dict(machine='48K', fmt='z80', compress=True, repeat=False, nframes=3, im1=False)
-    alts = dict(machine=['128K'], fmt=['szx'], compress=[False], repeat=[True], nframes=[2, 5], im1=[True])
+    # split = the frames are divided between two input recording blocks at this index (0 = one block)
+    default = dict(machine='48K', fmt='z80', compress=True, repeat=False, nframes=3, im1=False, split=0)
+    alts = dict(machine=['128K'], fmt=['szx'], compress=[False], repeat=[True], nframes=[2, 5], im1=[True], split=[1, 2])
     cfgs = []
     for k, cfg in core.deviations(default, alts, 2 if quick else 3):
+        if cfg['split'] >= cfg['nframes']:
+            continue
         if cfg not in cfgs:
             cfgs.append(cfg)
     for cfg in cfgs:
@@ -406,11 +410,14 @@ def _shard(shard, nshards, tier, seed):
     for i, (cfg, letter) in core.shard_iter(cases(tier), shard, nshards):
         swept = 'cut' in cfg
         problems, n, frames = run_case(cfg['machine'], cfg['fmt'], cfg['compress'], cfg['repeat'], cfg['nframes'], letter, cfg['im1'],
-                                       cfg.get('cut'), tuple(cfg.get('conv', (0, 0))), cfg.get('flags', 0), light=swept)
+                                       cfg.get('cut'), tuple(cfg.get('conv', (0, 0))), cfg.get('flags', 0), light=swept, split=cfg.get('split') or None)
         stats.evaluations += 1
         stats.transitions += n
         stats.traces += 1
         ctag = '{machine}/{fmt}/z{compress:d}/rep{repeat:d}/F{nframes}/im{im}'.format(im=1 if cfg['im1'] else 2, **cfg)
+        if cfg.get('split'):
+            ctag += '/split{}'.format(cfg['split'])
+            stats.counters['two_input_blocks'] += 1
         if swept:
             ctag += '/cut{}/conv{}{}/flags{}'.format(cfg['cut'], cfg['conv'][0], cfg['conv'][1], cfg['flags'])
             stats.counters['boundary_sweep'] += 1
@@ -435,14 +442,14 @@ def run(tier, seed):
     meta = dict(
         rule='recordings made by the reference-model recorder for prologue + each of {} letters + polling loop; configurations = deviations <= {} '
              'from (48K, z80 snapshot, compressed, no repeat marker, 3 frames, IM 2) over 128K, szx, uncompressed, repeat marker, 2/5 frames, IM 1 (ROM '
-             'interrupt routine); each case: playback on all 4 simulator choices vs the recorder state, EVERY stop frame 1..F-1 with dump + resume, '
+             'interrupt routine), frames divided between two input recording blocks at index 1/2; each case: playback on all 4 simulator choices vs the recorder state, EVERY stop frame 1..F-1 with dump + resume, '
              'rzxinfo --frames vs the recorded counters and readings; frame-boundary sweep: 13 interrupt-sensitive letters x the first frame ended after every instruction count 5..11 x 4 recording conventions (LD A,I/R flag fix, EI + short frame) played with the matching --flags value (and +4). evaluations = recordings; transitions = tool executions'.format(
                  len(letters()), 2 if tier == 'quick' else 3),
         exhaustive=True,
         bound='all letters x configuration deviations d <= {}; all stop frames'.format(2 if tier == 'quick' else 3),
         assumptions=['recorder = mc/refs/z80ref.py run with the RZX conventions (M1 fetch counting, frame-end interrupt, clock restart); playback flags 0 for the main space, flags 1/2/3 (+4) in the frame-boundary sweep with recordings made under the matching convention',
                      'recorded frames are {} T-states long (an RZX frame is defined by its fetch counter, not by the 50 Hz frame)'.format(FRAME_T)],
-        required_guards=['port_readings', 'frames', 'repeat_marker_used', 'boundary_sweep', 'short_frame_after_EI'],
+        required_guards=['port_readings', 'frames', 'repeat_marker_used', 'boundary_sweep', 'short_frame_after_EI', 'two_input_blocks'],
     )
     return stats, meta
 
@@ -450,5 +457,5 @@ def run(tier, seed):
 def replay(case):
     cfg = case['cfg']
     p, n, frames = run_case(cfg['machine'], cfg['fmt'], cfg['compress'], cfg['repeat'], cfg['nframes'], case['letter'], cfg['im1'],
-                            cfg.get('cut'), tuple(cfg.get('conv', (0, 0))), cfg.get('flags', 0), light='cut' in cfg)
+                            cfg.get('cut'), tuple(cfg.get('conv', (0, 0))), cfg.get('flags', 0), light='cut' in cfg, split=cfg.get('split') or None)
     return p
